@@ -60,6 +60,9 @@ def explore_one(c: sym.Ctx, case: Dict[str, Any]) -> Any:
 def harness(c: sym.Ctx, case: Dict[str, Any]) -> None:
     tr, mf = explore_one(c, case)
     check(c, tr, case)
+    if tr.returned == -1:
+        # giving up (and leaving dead slots unreplaced) is only allowed once the failure budget is really exhausted
+        c.check((mf >= 1) & (mf <= tr.fail_actions), "gives_up_only_with_exhausted_failure_budget", handled=tr.fail_actions)
 
 
 def check(c: sym.Ctx, tr: Any, case: Dict[str, Any]) -> None:
